@@ -252,6 +252,17 @@ Theorem C16_rank_exact : forall (c : scfg) key trust_of cands l1 x l2 y l3,
   (e_dist x = e_dist y -> (e_trust y <= e_trust x)%Q).
 Proof. exact rank_exact. Qed.
 
+(* In exact arithmetic more is true at equal distance AS THE SCORE SEES IT (same top 16 bytes,
+   the low bytes may differ): with a weight below 1 the score is strictly increasing in trust,
+   so whoever is ranked ahead is at least as trusted - the full-distance tie-break never
+   overrides a difference of trust. *)
+Theorem C16_rank_trust_scored_distance_exact : forall (c : scfg) key trust_of cands l1 x l2 y l3,
+  key_ok key -> Forall (fun x => key_ok (n_id x)) cands ->
+  rank qnum c key trust_of cands = l1 ++ x :: l2 ++ y :: l3 ->
+  e_dist x / 2 ^ 128 = e_dist y / 2 ^ 128 -> (unit qnum (c_weight c) < 1)%Q ->
+  (e_trust y <= e_trust x)%Q.
+Proof. exact rank_trust_scored_exact. Qed.
+
 (* ... and binary64 under the named float assumption *)
 Theorem C16_rank_binary64 : laws fnum -> forall (c : scfg) key trust_of cands l1 x l2 y l3,
   key_ok key -> Forall (fun x => key_ok (n_id x)) cands ->
